@@ -194,6 +194,27 @@ Proof. exact swap_out_value_partial. Qed.
 Print Assumptions C04_balancer_swap_value_partial.
 
 
+(* PARTIAL (single-asset join).  Hypotheses: on bases in [1, 2) the computed power is not ABOVE the true power of its 18-decimal
+   operands by more than eps >= 0; the base of THIS join lies in [1, 2); the operand rounding adds at most the factor (1 + eta).
+   Conclusion: B^nw / S - the joined asset's contribution to the value per share, nothing else changes - falls by at most the
+   factor 1 / (1 + eta + eps / y^nw), y = (B + a) / B. *)
+Theorem C04_balancer_single_join_value_partial : forall eps : R, (0 <= eps)%R ->
+  (forall b e r : Z, (P18 <= b < 2 * P18)%Z -> (0 <= e)%Z -> pow b e = Ok r ->
+     IZR r / D18 <= Rpower (IZR b / D18) (IZR e / D18) + eps)%R ->
+  forall (p : bpool) (bal w a fee ts s : Z) (eta : R),
+  b_calc_single_asset_join p bal w a fee ts = Ok s ->
+  let nwd := d_quo (dec_of_int w) (dec_of_int (b_total_weight p)) in
+  forall fr : Z, fee_ratio nwd fee = Ok fr ->
+  let yd := d_quo (dec_of_int bal + d_mul (dec_of_int a) fr) (dec_of_int bal) in
+  let B := IZR bal in let S := IZR ts in let nw := (IZR nwd / D18)%R in
+  let pt := Rpower ((B + IZR a) / B) nw in
+  (0 < B)%R -> (0 <= IZR a)%R -> (0 < nw)%R -> (0 < S)%R -> (0 <= s)%Z ->
+  (P18 <= yd < 2 * P18)%Z -> (0 <= nwd)%Z ->
+  (Rpower (IZR yd / D18) nw <= pt * (1 + eta))%R -> (0 <= eta)%R ->
+  (Rpower B nw / S <= (1 + (eta + eps / pt)) * (Rpower (B + IZR a) nw / (S + IZR s)))%R.
+Proof. exact single_join_value_partial. Qed.
+Print Assumptions C04_balancer_single_join_value_partial.
+
 (* The full statement for balancer pools - "within the documented power precision for every trade size up to the solver's
    domain limit" - is FALSE of the faithful model, because this tree has no MaxInRatio / MaxOutRatio guard and Pow is used
    with bases down to 0 (C13's finding F4).  Two machine-checked witnesses, both replayed on the Go code: *)
